@@ -469,6 +469,19 @@ def _probe_list():
     add("require_static_mode_not_static", "not_static",
         "#[derive(Collect)]\n#[collect(require_static)]\nstruct S<'a>(&'a u8);\n" + USE_A,
         _d("struct", "(require_static)", 1, 0, 0, "(V tuple () (F () ON))"))
+    # type-level require_static ignores any `bound = …` override: the impl is still `where Self: 'static`
+    add("require_static_mode_with_bound_not_static", "not_static",
+        "#[derive(Collect)]\n#[collect(require_static, bound = \"\")]\nstruct S<'a>(Gc<'a, u8>);\n" + USE_A,
+        _d("struct", "(require_static (bound))", 1, 0, 0, "(V tuple () (F () G))"))
+    add("require_static_mode_with_bound_not_static.twin", "ok",
+        "#[derive(Collect)]\n#[collect(require_static, bound = \"\")]\nstruct S(u8);\nfn use_it() { let _ = <S as Collect>::NEEDS_TRACE; }\n",
+        _d("struct", "(require_static (bound))", 0, 0, 0, "(V tuple () (F () L))"), "require_static_mode_with_bound_not_static")
+    add("require_static_mode_with_where_bound_param_gc", "not_static",
+        "#[derive(Collect)]\n#[collect(require_static, bound = \"where T: Collect<'gc>\")]\nstruct S<T>(T);\nfn use_it<'a>() { let _ = <S<Gc<'a, u8>> as Collect>::NEEDS_TRACE; }\n",
+        _d("struct", "(require_static (bound 0))", 0, 1, 0, "(V tuple () (F () (P 0)))", "G"))
+    add("require_static_field_with_bound_override_not_static", "not_static",
+        "#[derive(Collect)]\n#[collect(no_drop, bound = \"\")]\nstruct S<'a>(u8, #[collect(require_static)] Gc<'a, u8>);\n" + USE_A,
+        _d("struct", "(no_drop (bound))", 1, 0, 0, "(V tuple () (F () L) (F ((require_static)) G))"))
     add("require_static_mode_not_static.twin", "ok",
         NOTCOLLECT + "#[derive(Collect)]\n#[collect(require_static)]\nstruct S(&'static u8, NotCollect);\nfn use_it() { let _ = <S as Collect>::NEEDS_TRACE; }\n",
         _d("struct", "(require_static)", 0, 0, 0, "(V tuple () (F () L) (F () OS))"), "require_static_mode_not_static")
